@@ -273,9 +273,16 @@ func writeListOrArray(e *Encoder, d *decodeState, ifWriteTag bool, tagName strin
 			if d.opcode != scanBeginList {
 				return TagList, d.error("different TagType in List")
 			}
-			elemType, err = writeListOrArray(e2, d, false, "")
+			var t byte
+			t, err = writeListOrArray(e2, d, false, "")
 			if err != nil {
 				return tagType, err
+			}
+			if count == 0 {
+				elemType = t
+			}
+			if t != elemType {
+				return TagList, d.error("different TagType in List")
 			}
 			count++
 			if d.opcode == scanSkipSpace {
